@@ -266,7 +266,7 @@ func pickValue17(r *hx.R) *Doc {
 
 // wrongKinds: one value of every kind other than the node's own (integers and fractions count as different kinds).
 func wrongKinds(n *Doc) []*Doc {
-	all := []*Doc{dnull(), dbool(true), dstr("x"), dnum("1"), dnum("1.5"), darr(), dobj(), darr(dstr("x")), dobj(mem("path", dstr("/x")))}
+	all := []*Doc{dnull(), dbool(true), dstr("x"), dnum("1"), dnum("1.5"), darr(), dobj()}
 	var out []*Doc
 	for _, v := range all {
 		if v.K == n.K && (v.K != dNum || v.Num.IsInt() == n.Num.IsInt()) {
@@ -575,7 +575,7 @@ func genC17(r *hx.R, tier string, scratch string) (*hx.Suite, error) {
 		CaseType: "case17",
 		Judge:    "judge17",
 		Shard:    120,
-		Rule: "documents derived from Spec images: every member removed in turn (all levels), every node replaced by a value of every other kind, every " +
+		Rule: "documents derived from Spec images: every member removed in turn (all levels), every node replaced by a value of every other kind, every string replaced by odd contents, every " +
 			"number replaced by boundary / out-of-range / integral-float / fractional literals, an extra member added to every object, odd annotation maps " +
 			"(keys: empty, LF-only, blanks, upper case, dotless-I and Kelvin sign, over-long names and prefixes, non-ASCII; non-string values; oversize), " +
 			"null list entries, odd top levels, random multi-mutations of random Specs; each as compact or indented JSON and as block-style YAML (plain or " +
@@ -655,6 +655,17 @@ func genC17(r *hx.R, tier string, scratch string) (*hx.Suite, error) {
 			lit := lit
 			d, _ := mutateAt(fullDoc, k, func(nr nodeRef) { nr.replace(dnum(lit)) })
 			add(d, nil, "numbers", false)
+		}
+	}
+	// the schema files say nothing about the content of any string: every string replaced by odd contents
+	for k, nr0 := range nodes17(fullDoc) {
+		if nr0.node().K != dStr || nr0.parent.K == dObj && strings.HasSuffix(nr0.path, ".annotations."+nr0.parent.O[nr0.idx].K) {
+			continue // annotation values are covered by the annotation classes
+		}
+		for _, str := range []string{"", " ", "bad name!", "é", "-x-", "a\nb", "0", "x/y=z"} {
+			str := str
+			d, _ := mutateAt(fullDoc, k, func(nr nodeRef) { nr.replace(dstr(str)) })
+			add(d, nil, "string-content", false)
 		}
 	}
 	// an extra member in every object
@@ -793,7 +804,7 @@ func genC17(r *hx.R, tier string, scratch string) (*hx.Suite, error) {
 		if err := emit(builtinCfgs[i%len(builtinCfgs)], dc); err != nil {
 			return nil, err
 		}
-		special := dc.class == "annotations" || dc.class == "devices-shape" || dc.class == "top-level" || dc.class == "annotations-size"
+		special := dc.class == "annotations" || dc.class == "devices-shape" || dc.class == "top-level" || dc.class == "annotations-size" || dc.class == "string-content"
 		if special && i%2 == 0 || i%7 == 0 {
 			if err := emit(nopCfgs[(i/2)%len(nopCfgs)], dc); err != nil {
 				return nil, err
